@@ -11,12 +11,21 @@ right after A's KEXINIT has been written (the KEXINIT sender is paused inside th
 until the user thread has reached the gate or the wire), M and B's key exchange traffic are released.  A recording packetizer gives A's outbound type trace, a recording
 `_send_user_message` tells which thread went through the gate with the flag in which state.  The canonical
 outcome of every cell is compared with the model's `run_cell` (vm_compute over the generated table).
-Oracle (independent of the model): no message >= 50 between A's KEXINIT and A's NEWKEYS, the transport
-thread never enters the gate while the flag is clear, the re-exchange completes, both ends stay up, M's
+Further cells let the user thread call shutdown_write() / close() at that switch point while the peer's
+WINDOW_ADJUST / EOF / CLOSE / data for the same channel is in flight (lock discipline: gen/c11.py lists every
+send reachable inside a `self.lock` critical section of Channel / Transport; the model's step_gen makes the
+transport thread block behind a user thread that parks at the gate with the lock).
+Oracle (independent of the model and of the translator): no message >= 50 between A's KEXINIT and A's NEWKEYS,
+the transport thread never enters the gate while the flag is clear and never sits on a channel / transport
+lock inside a handler while the exchange is pending (two stack samples of the transport thread), the re-exchange completes, both ends stay up, M's
 effect and the queued user data are delivered afterwards.
 """
+import linecache
 import logging
+import os
+import re
 import socket
+import sys
 import threading
 import time
 
@@ -29,14 +38,19 @@ LEVEL_TEXT = ("Machine-checked proof (Coq, closed under the global context) over
               "message >= 50 emitted between own KEXINIT and own NEWKEYS is an ungated reply of a handler the table "
               "marks Ungated (user-thread sends are always held back), the transport thread blocks on the flag "
               "exactly when a Gated handler (or the keepalive tick) replies during the exchange and is then never "
-              "released (only it can set the flag), handlers that do not reply are transparent, and once NEWKEYS "
+              "released (only it can set the flag), handlers that do not reply are transparent, no send is reachable "
+              "inside a self.lock critical section of Channel/Transport (generated from every critical section) so "
+              "the transport thread never waits on a lock held by a user thread parked at the gate (and the LTS "
+              "shows it would stall for good if one were), and once NEWKEYS "
               "arrives every queued user send is emitted in order; the two desired theorems that fail in the code "
               "as written are proved refuted with the handlers named (known findings).  Tied to the code by the "
               "translator and by held-message cells on real loopback transport pairs compared with the model.")
 LEVEL_NOTE = ("Partial: thread timing, the 0.1 s polling of the gate and the clear_to_send_timeout are outside the "
               "model (a blocked transport thread is modelled as blocked until an environment Timeout event); the "
               "key exchange itself is abstracted to KEXINIT / one kex message / NEWKEYS; atomic steps = critical "
-              "sections under clear_to_send_lock, identified by hand and checked only by the cells; auth-layer "
+              "sections under clear_to_send_lock, identified by hand and checked only by the cells; all channel "
+              "locks and the transport lock are one lock in the model and a parked user's own timeout is not "
+              "modelled; auth-layer "
               "handlers (types 50-79) and opaque callbacks (ServerInterface methods, x11/agent/tcp handlers) are "
               "not walked; gen/c11.py and the relay are trusted.  Known findings: replies of _parse_global_request "
               "/ _parse_channel_open are sent ungated during the exchange; Channel._handle_request / _handle_close "
@@ -427,11 +441,37 @@ def offenders(trace):
     return bad
 
 
-def run_cell(role, name, init, rng, user_send=True):
+USER_TYPES = {"send": {94}, "shutdown_write": {96}, "close": {96, 97}}
+# functions whose critical section the translator may report, per user operation
+OP_FUNCS = {"send": {"Channel._send", "Channel.send", "Channel.sendall", "Channel.send_stderr"},
+            "shutdown_write": {"Channel.shutdown", "Channel.shutdown_write", "Channel._send_eof"},
+            "close": {"Channel.close", "Channel._close_internal"}}
+LOCK_LINE = re.compile(r"\bself\.lock\.acquire\(|\bwith self\.lock\b")
+
+
+def tt_lock_frame(t):
+    """(function, line text) when transport thread t currently sits in a paramiko function at a
+    `self.lock.acquire()` line, else None."""
+    fr = sys._current_frames().get(t.ident)
+    while fr is not None:
+        fn = fr.f_code.co_filename
+        if os.sep + "paramiko" + os.sep in fn:
+            line = linecache.getline(fn, fr.f_lineno).strip()
+            if LOCK_LINE.search(line):
+                return ("%s:%s" % (os.path.basename(fn), fr.f_code.co_name), fr.f_lineno)
+            return None
+        fr = fr.f_back
+    return None
+
+
+def run_cell(role, name, init, rng, user_send=True, op="send"):
     """One held-message cell.  Returns the observation dict (no judgement here)."""
     _, ptype, replies, _ = CELL[name]
+    if op == "close" and name == "close":
+        replies = False     # the channel is already closed locally: _close_internal has nothing left to send
     s = Sess(role)
-    obs = {"role": role, "cell": name, "init": init, "ptype": ptype, "replies": replies}
+    obs = {"role": role, "cell": name, "init": init, "ptype": ptype, "replies": replies, "op": op,
+           "tt_lock_block": None}
     try:
         A, B = s.A, s.B
         if name == "keepalive-tick":
@@ -459,13 +499,18 @@ def run_cell(role, name, init, rng, user_send=True):
 
         def user():
             try:
-                s.chanA.sendall(payload)
+                if op == "send":
+                    s.chanA.sendall(payload)
+                elif op == "shutdown_write":
+                    s.chanA.shutdown_write()
+                else:
+                    s.chanA.close()
                 us["ok"] = True
             except Exception as e:          # noqa
                 us["exc"] = e
 
         threads = []
-        can_send = not (name in ("close", "chan-failure"))
+        can_send = not (op == "send" and name in ("close", "chan-failure"))
         ut = threading.Thread(target=user, daemon=True)
         hk = {}
         hook_done = threading.Event()
@@ -477,11 +522,11 @@ def run_cell(role, name, init, rng, user_send=True):
             try:
                 ut.start()
                 threads.append(ut)
-                _wait(lambda: any(t == 94 and not tt for t, tt, _, _ in s.gate()), 3.0)
-                ent = [flag for t, tt, flag, _ in s.gate() if t == 94 and not tt]
-                obs["user_flag_at_gate"] = ent[0] if ent else None
-                if ent and ent[0]:
-                    _wait(lambda: 94 in [t for t, _ in s.out_trace()], 3.0)
+                _wait(lambda: any(not tt for t, tt, _, _ in s.gate()), 3.0)
+                ent = [(t, flag) for t, tt, flag, _ in s.gate() if not tt]
+                obs["user_flag_at_gate"] = ent[0][1] if ent else None
+                if ent and ent[0][1]:
+                    _wait(lambda: ent[0][0] in [t for t, _ in s.out_trace()], 3.0)
             finally:
                 hook_done.set()
 
@@ -503,13 +548,24 @@ def run_cell(role, name, init, rng, user_send=True):
         if user_send and can_send and not hk.get("started"):
             ut.start()          # the switch point was not reached (cannot happen unless send_message is bypassed)
             threads.append(ut)
-            _wait(lambda: any(t == 94 and not tt for t, tt, _, _ in s.gate()), 3.0)
+            _wait(lambda: any(not tt for t, tt, _, _ in s.gate()), 3.0)
         if name == "keepalive-tick":
             time.sleep(0.7)
         s.net.release()
         # wait for the end of the story: exchange finished, or a party died
-        done = _wait(lambda: (21 in s.in_trace() and 21 in [t for t, _ in s.out_trace()]) or not A.is_active()
-                     or not B.is_active(), CTS_TIMEOUT + WATCH)
+        def finished():
+            return (21 in s.in_trace() and 21 in [t for t, _ in s.out_trace()]) or not A.is_active() \
+                or not B.is_active()
+
+        if not _wait(finished, 0.6):
+            # not through after 0.6 s (normally ~20 ms): is the transport thread parked on a channel /
+            # transport lock inside a handler?  Two samples 0.15 s apart must agree.
+            f1 = tt_lock_frame(A)
+            time.sleep(0.15)
+            f2 = tt_lock_frame(A)
+            if f1 is not None and f1 == f2 and not finished():
+                obs["tt_lock_block"] = list(f1)
+        done = _wait(finished, CTS_TIMEOUT + WATCH)
         obs["finished"] = done
         time.sleep(0.05)
         for t in threads:
@@ -534,10 +590,16 @@ def run_cell(role, name, init, rng, user_send=True):
             if user_send and can_send and us.get("exc") is not None:
                 obs["delivered_user"] = False       # the user's send raised: nothing to wait for
             elif user_send and can_send:
-                st, v = with_watchdog(lambda: _recvn(s.chanB, len(payload)) == payload, WATCH + 2)
+                if op == "send":
+                    st, v = with_watchdog(lambda: _recvn(s.chanB, len(payload)) == payload, WATCH + 2)
+                else:
+                    want = 96 if op == "shutdown_write" else 97
+                    st, v = with_watchdog(lambda: _wait(lambda: want in s.b_in(), WATCH), WATCH + 2)
                 obs["delivered_user"] = st == "ok" and bool(v)
                 k21 = obs["out"].index(21)
-                obs["user_after_newkeys"] = 94 in obs["out"][k21:] and 94 not in obs["out"][:k21]
+                ut_types = USER_TYPES[op]
+                user_out = [(i, t) for i, (t, tt) in enumerate(tr) if t in ut_types and not tt]
+                obs["user_after_newkeys"] = bool(user_out) and all(i > k21 for i, _ in user_out)
         return obs
     finally:
         s.close()
@@ -546,6 +608,8 @@ def run_cell(role, name, init, rng, user_send=True):
 def canonical(obs):
     """[code; delivered; offender types...]  code: 2 transport thread waited on the flag, 1 a message >= 50 went
     out between KEXINIT and NEWKEYS, 0 transparent."""
+    if obs.get("tt_lock_block"):
+        return [3, 0]
     if obs["tt_waited"]:
         return [2, 0]
     if obs["offenders"]:
@@ -557,8 +621,16 @@ def canonical(obs):
 
 def judge(ctx, obs):
     """The property stated directly on the observation; every failure carries the key of its call site."""
-    case = {"role": obs["role"], "cell": obs["cell"], "init": obs["init"]}
+    case = {"role": obs["role"], "cell": obs["cell"], "init": obs["init"], "op": obs.get("op", "send")}
     p = obs["ptype"]
+    if obs.get("tt_lock_block"):
+        ctx.fail("transport-thread-blocked-on-lock-held-across-gated-send",
+                 "during own re-key the transport thread is blocked in a handler on a lock that a user thread holds "
+                 "while it waits in _send_user_message: the exchange stalls until the user's send times out",
+                 case=case, expected="no gated send is performed while holding a lock a handler needs",
+                 observed={"transport_thread_at": obs["tt_lock_block"], "user_op": obs.get("op"), "user": obs["user"],
+                           "out": obs["out"], "gate": [list(g) for g in obs["gate"]]})
+        return
     for t, tt in obs["offenders"]:
         if not tt:
             ctx.fail("user-send-ungated-during-kex",
@@ -602,7 +674,7 @@ def WATCH_TEXT(key, default):
 def model_case(obs):
     """(init, ptype, replies, keepalive) for run_cell in coq/Model/C11.v"""
     return (0 if obs["init"] == "explicit" else 1, obs["ptype"], bool(obs["replies"]),
-            obs["cell"] == "keepalive-tick")
+            obs["cell"] == "keepalive-tick", bool(obs.get("ulocked")))
 
 
 def _gen_tables(repo):
@@ -615,11 +687,11 @@ def _gen_tables(repo):
     return mod.tables(repo)
 
 
-def guarded_cell(ctx, role, name, init, rng):
+def guarded_cell(ctx, role, name, init, rng, op="send"):
     box = {}
 
     def go():
-        box["obs"] = run_cell(role, name, init, rng)
+        box["obs"] = run_cell(role, name, init, rng, op=op)
 
     for attempt in (0, 1):
         st, v = with_watchdog(go, 60)
@@ -632,7 +704,7 @@ def guarded_cell(ctx, role, name, init, rng):
         if attempt == 1:
             if st == "exc":
                 raise v
-            ctx.fail("cell-hang", "a cell did not finish", case={"role": role, "cell": name, "init": init})
+            ctx.fail("cell-hang", "a cell did not finish", case={"role": role, "cell": name, "init": init, "op": op})
     return None
 
 
@@ -644,7 +716,9 @@ def run(ctx):
                 "request success/failure, channel open, open success/failure, a keepalive tick, nothing) x "
                 "{explicit renegotiate_keys from a user thread, re-key request picked up by the transport thread}; "
                 "payloads, request names and sizes from the seeded generator; a user thread sends channel data "
-                "during the exchange; quick tier takes every kind once per role with the initiation mode drawn from "
+                "at a switch point right after own KEXINIT is written; 12 further cells (24 thorough) where that user "
+                "thread calls shutdown_write() / close() while the peer's WINDOW_ADJUST / EOF / CLOSE / data for the "
+                "channel is in flight; quick tier takes every kind once per role with the initiation mode drawn from "
                 "the seed, thorough takes all combinations twice; a cell is non-trivial when something was in "
                 "flight or a user send was queued")
     ctx.trusted += ["gen/c11.py (AST call-graph walk, fail-closed) and the identification of atomic steps of the LTS "
@@ -667,25 +741,42 @@ def run(ctx):
                    ("server", "keepalive-tick", "explicit"), ("client", "keepalive-tick", "threshold")):
         if forced not in plan:
             plan.append(forced)
+    plan = [(r, n, i, "send") for r, n, i in plan]
+    # a user thread shuts down / closes the channel during own re-key while the peer's message for that channel
+    # (handlers that need Channel.lock, and one that does not) is in flight
+    for op, names in (("shutdown_write", ("window-adjust", "eof", "data")), ("close", ("window-adjust", "eof", "close"))):
+        for name in names:
+            for role in ("client", "server"):
+                for init in (("explicit", "threshold") if ctx.thorough else (rng.choice(["explicit", "threshold"]),)):
+                    plan.append((role, name, init, op))
+    # which user operations send while holding self.lock, according to the translator (none on a sound tree)
+    locked_ops = set()
+    try:
+        lf = {f for f, _ in _gen_tables(ctx.repo)["facts"]["locked_sends"]}
+        locked_ops = {o for o, fs in OP_FUNCS.items() if fs & lf}
+    except Exception as e:      # reported by ctx.prove(); the oracle below does not depend on it
+        ctx.notes.append("translator unavailable for the lock cross-check: %r" % (e,))
     results = []
     t0 = time.time()
-    for role, name, init in plan:
-        obs = guarded_cell(ctx, role, name, init, rng)
+    for role, name, init, op in plan:
+        obs = guarded_cell(ctx, role, name, init, rng, op=op)
         if obs is None:
             continue
-        ctx.count((role, name, init, tuple(obs["out"])), nontrivial=True, kind="%s-%s" % (name, init))
+        obs["ulocked"] = op in locked_ops
+        ctx.count((role, name, init, op, tuple(obs["out"])), nontrivial=True, kind="%s-%s-%s" % (name, op, init))
         judge(ctx, obs)
         results.append(obs)
     ctx.log("%d cells in %.1fs" % (len(results), time.time() - t0))
     ctx.traces = len(results)
     if ctx.proof is not None and ctx.proof.model_ok:
         cases = [(coq(model_case(o)), canonical(o)) for o in results]
-        bad = ctx.model_mismatches("run_cell", "(Z * Z * bool * bool)", cases)
+        bad = ctx.model_mismatches("run_cell", "(Z * Z * bool * bool * bool)", cases)
         for i in bad[:4]:
             o = results[i]
             ctx.disagree("cell outcome differs from the model's prediction over the generated discipline table",
-                         case={"role": o["role"], "cell": o["cell"], "init": o["init"]},
+                         case={"role": o["role"], "cell": o["cell"], "init": o["init"], "op": o["op"]},
                          impl={"canonical": canonical(o), "out": o["out"], "tt_waited": o["tt_waited"],
+                               "tt_lock_block": o["tt_lock_block"],
                                "a_exc": o["a_exc"], "b_exc": o["b_exc"]})
     # offender / gated types must be among the types the generated table lists for that handler
     try:
@@ -713,7 +804,7 @@ def replay(ctx, rep):
         return run(ctx)
     ctx.prove()
     for k in range(2):
-        obs = guarded_cell(ctx, case["role"], case["cell"], case["init"], ctx.rng)
+        obs = guarded_cell(ctx, case["role"], case["cell"], case["init"], ctx.rng, op=case.get("op", "send"))
         if obs is not None:
             ctx.count(("replay", k, tuple(obs["out"])))
             judge(ctx, obs)
